@@ -1,6 +1,10 @@
 package main
 
-import "strings"
+import (
+	"os"
+	"regexp"
+	"strings"
+)
 
 // directPatterns returns the distinct sub-terms of body of the form (select A v) in which the bound variable v
 // is the index itself (no arithmetic) and does not occur in A. They are arithmetic-free E-matching triggers
@@ -74,5 +78,128 @@ func containsSymbol(s, sym string) bool {
 			return true
 		}
 		i = k + len(sym)
+	}
+}
+
+// absolutize rewrites a quantified body whose bound index variable v is used as a slice index relative to one
+// slice header, `(+ (soff S) v)`, into a body over the absolute array position p = (soff S) + v. The element
+// reads then become `(select row p)` with the bound variable as the bare index, which is an arithmetic-free
+// E-matching trigger. The substitution v = p - (soff S) is a bijection on Int, so the quantified formula is
+// equivalent. Returns the new body and true when the rewrite applies.
+func absolutize(body, v, p string) (string, bool) {
+	needle := " " + v + ")"
+	counts := map[string]int{}
+	var order []string
+	for i := 0; i+8 < len(body); i++ {
+		if !strings.HasPrefix(body[i:], "(+ (soff ") {
+			continue
+		}
+		end := matchParen(body, i)
+		if end < 0 {
+			continue
+		}
+		term := body[i : end+1]
+		if !strings.HasSuffix(term, needle) {
+			continue
+		}
+		inner := term[3 : len(term)-len(needle)] // "(soff S)"
+		if matchParen(inner, 0) != len(inner)-1 || strings.Contains(inner, "!q") {
+			continue
+		}
+		if counts[inner] == 0 {
+			order = append(order, inner)
+		}
+		counts[inner]++
+	}
+	best := ""
+	for _, k := range order {
+		if best == "" || counts[k] > counts[best] {
+			best = k
+		}
+	}
+	if best == "" {
+		return body, false
+	}
+	out := strings.ReplaceAll(body, "(+ "+best+" "+v+")", p)
+	out = replaceSymbol(out, v, "(- "+p+" "+best+")")
+	return out, true
+}
+
+// replaceSymbol replaces whole-symbol occurrences of sym in an s-expression string.
+func replaceSymbol(s, sym, by string) string {
+	var b strings.Builder
+	for i := 0; i < len(s); {
+		k := strings.Index(s[i:], sym)
+		if k < 0 {
+			b.WriteString(s[i:])
+			break
+		}
+		k += i
+		before := k == 0 || strings.ContainsRune(" ()", rune(s[k-1]))
+		after := k+len(sym) == len(s) || strings.ContainsRune(" ()", rune(s[k+len(sym)]))
+		b.WriteString(s[i:k])
+		if before && after {
+			b.WriteString(by)
+		} else {
+			b.WriteString(sym)
+		}
+		i = k + len(sym)
+	}
+	return b.String()
+}
+
+// noAbsolutize switches the index rewrite off (debugging: VERIF_NO_ABS=1).
+var noAbsolutize = os.Getenv("VERIF_NO_ABS") != ""
+
+var dtNameRe = regexp.MustCompile(`^\(declare-datatypes \(\((\S+) 0\)\)`)
+
+// neededDatatypes returns, in declaration order, the datatype declarations whose sort name occurs in text or in
+// another needed declaration.
+func neededDatatypes(decls []string, text string) []string {
+	names := make([]string, len(decls))
+	need := make([]bool, len(decls))
+	for i, d := range decls {
+		if m := dtNameRe.FindStringSubmatch(d); m != nil {
+			names[i] = m[1]
+		} else {
+			need[i] = true
+		}
+	}
+	for changed := true; changed; {
+		changed = false
+		for i, d := range decls {
+			if need[i] {
+				continue
+			}
+			if containsSymbolLoose(text, names[i]) {
+				need[i] = true
+				changed = true
+				text += d
+			}
+		}
+	}
+	var out []string
+	for i, d := range decls {
+		if need[i] {
+			out = append(out, d)
+		}
+	}
+	return out
+}
+
+// containsSymbolLoose: sym occurs delimited by characters that cannot be part of a sort or accessor name built from it.
+func containsSymbolLoose(s, sym string) bool {
+	for i := 0; ; {
+		k := strings.Index(s[i:], sym)
+		if k < 0 {
+			return false
+		}
+		k += i
+		end := k + len(sym)
+		// accessors are f!<key>!field and constructors mk!S!<key>: any occurrence of the key means the sort is used
+		if end == len(s) || strings.ContainsRune(" ()!", rune(s[end])) {
+			return true
+		}
+		i = k + 1
 	}
 }
